@@ -54,7 +54,7 @@ def _to_ints(arr, scale):
     return out
 
 
-def impl_run(matrix, kind="int", slog=0, want_trace=False, limit=10.0):
+def impl_run(matrix, kind="int", slog=0, want_trace=False, limit=5.0):
     """Run linear_sum_assignment(cost, return_cost=True) with every module-level _stepN wrapped so that the
     state after each step of the *real* driver loop is recorded.  `matrix` holds exact integers; the array handed
     to the implementation is int (kind int), bool (kind bool) or float64 = matrix / 2**slog (kind dyadic).
@@ -412,7 +412,7 @@ def refusal_cases(ctx):
     return cases
 
 
-def impl_refuse(obj, limit=10.0):
+def impl_refuse(obj, limit=5.0):
     import warnings
     from qcelemental.util.scipy_hungarian import linear_sum_assignment
     old = signal.signal(signal.SIGVTALRM, _alarm)
@@ -448,17 +448,22 @@ def _pool():
     return multiprocessing.get_context("fork").Pool(NPROC)
 
 
-def _run_jobs(pool, fn, jobs, chunksize, max_fail=40):
-    """ordered results of fn over jobs; stops early (dropping the rest) once max_fail oracle failures were seen, so
-    that a change that makes most runs hang or fail does not take hours to report."""
+def _run_jobs(pool, fn, jobs, chunksize, max_fail=40, probe=192):
+    """ordered results of fn over jobs.  A probe prefix runs one job per task; if it already shows systematic
+    failure (>= 8 oracle failures), or once max_fail failures were seen, the rest is dropped — a change that makes
+    most runs hang (each hang costs the CPU-time limit) is then reported in about a minute instead of hours."""
     out, nfail = [], 0
-    for r in pool.imap(fn, jobs, chunksize=chunksize):
-        out.append(r)
-        if r[1]:
-            nfail += 1
-            if nfail >= max_fail:
-                pool.terminate()
-                break
+    for part, cs, stop_after in ((jobs[:probe], 1, 8), (jobs[probe:], chunksize, None)):
+        for r in pool.imap(fn, part, chunksize=cs):
+            out.append(r)
+            if r[1]:
+                nfail += 1
+                if nfail >= max_fail:
+                    pool.terminate()
+                    return out
+        if stop_after is not None and nfail >= stop_after:
+            pool.terminate()
+            return out
     return out
 
 
